@@ -407,3 +407,16 @@ func sortedKeys[V any](m map[string]V) []string {
 	sort.Strings(ks)
 	return ks
 }
+
+// LitText: the text of a literal symbol (reverse of Lit).
+func (d *Decls) LitText(sym string) (string, bool) {
+	if sym == "str_empty" {
+		return "", true
+	}
+	for t, s := range d.lits {
+		if s == sym {
+			return t, true
+		}
+	}
+	return "", false
+}
